@@ -181,7 +181,8 @@ func (e *integEngine) resultSignature() string {
 				derr = fmt.Sprint(d.Err != nil)
 			}
 		}
-		parts = append(parts, fmt.Sprintf("%s{exit=%d errored=%v skipped=%v runerr=%s out=%dB:%x}", t.Name, rt.ExitCode, rt.Errored, rt.Skipped, derr, len(rt.Output()), shortHash([]byte(rt.Output()))))
+		parts = append(parts, fmt.Sprintf("%s{exit=%d errored=%v skipped=%v runerr=%s out=%dB:%x err=%dB:%x}", t.Name, rt.ExitCode, rt.Errored, rt.Skipped, derr,
+			len(rt.Output()), shortHash([]byte(rt.Output())), rt.Log.Stderr.Len(), shortHash(rt.Log.Stderr.Bytes())))
 	}
 	return strings.Join(parts, " ")
 }
